@@ -180,6 +180,10 @@ class SurfaceGroup:
                 surface_type, index, is_stop, material, thickness, **kwargs
                 )
 
+        elif index is None:
+            # a ready-made surface without an index is appended
+            index = len(self.surfaces)
+
         if new_surface.is_stop:
             for surface in self.surfaces:
                 surface.is_stop = False
